@@ -3,7 +3,7 @@
 Each function takes the rule object to report into, so that each property reports the instances
 under its own rule id."""
 from mirlib import AnchorMissing, describe_operand, describe_place, describe_rvalue, dom_guards, guards, _suffix_match
-from rules.common import aggregates, field_writes, where
+from rules.common import aggregates, field_writes, where, success_edge
 
 UP = "uplink::Uplinks"
 KINDS = ("Value", "Supply", "Map")
@@ -48,14 +48,20 @@ def queued_flag_discipline(r, ctx):
         t_ = push.term(b_)
         if t_.get("k") == "switch" and t_.get("discr") is not None and describe_operand(push, t_["discr"]).rstrip(")").endswith("queued"):
             qtests.add(b_)
-    okret = {i for i, j, p_, rv, line in push.assigns() if describe_rvalue(push, rv).startswith("Result::Ok(")}
+    # the function's own normal result: an `Ok` that is (or is moved into) the return place - not the `Ok(())` of a closure handed to a helper, which is consumed by a `?`
+    retloc = {0}
+    for _ in range(4):
+        for i, j, p_, rv, line in push.assigns():
+            if p_[0] in retloc and not p_[1] and rv[0] == "use" and rv[1][0] in ("m", "c") and not rv[1][1][1]:
+                retloc.add(rv[1][1][0])
+    okret = {i for i, j, p_, rv, line in push.assigns() if describe_rvalue(push, rv).startswith("Result::Ok(") and p_[0] in retloc and not p_[1]}
     for c in sorted(ents_, key=lambda x: x.block):
         g = dom_guards(push, c.block)
         ev, sub = _kind_of(g, "push")
         arm = ("Synced(%s)" % sub) if ev == "Synced" and sub else (ev or "?")
         ok, wit = push.must_pass(push.succ[c.block], qtests, targets=okret | set(push.exits())) if qtests else (False, None)
         # error returns (an invalid map key) leave nothing recorded: only the paths that reach the normal return count
-        if not ok and wit is not None and not any(w in okret for w in wit) and okret:
+        if not ok and okret:
             ok = push.path_avoiding(push.succ[c.block], okret, avoid=qtests) is None
         r.check(ok, "push/%s/recorded=>scheduled" % arm, c.loc(), "what the %s arm records for the lane is followed by the `queued` test that puts the lane into the write queue" % arm,
                 "the %s arm records state on the lane's uplink while the writer is busy and returns without making sure the lane is in write_queue: if nothing else is queued for the lane it is never written "
@@ -66,7 +72,10 @@ def queued_flag_discipline(r, ctx):
         kind = sub if ev == "Synced" else ev
         arm = ("Synced(%s)" % sub) if ev == "Synced" else ev
         tup = describe_operand(push, c.args[1])
-        r.check(tup.startswith("tuple(UplinkKind::%s()" % kind) and "lane_id" in tup, "push/%s/queue-entry-kind" % arm, c.loc(), "%s arm enqueues %s" % (arm, tup),
+        # the kind of the entry is the constant of the arm, or the very value whose match selected the arm (`Synced(kind) => enqueue(.., (kind, id))`)
+        first = tup[len("tuple("):].split(", ")[0] if tup.startswith("tuple(") else ""
+        same_value = bool(first) and any(d == "disc(%s)" % first and l == kind for d, l, _ in g)
+        r.check((tup.startswith("tuple(UplinkKind::%s()" % kind) or same_value) and "lane_id" in tup, "push/%s/queue-entry-kind" % arm, c.loc(), "%s arm enqueues %s" % (arm, tup),
                 "%s arm enqueues %s: the entry would be popped from the wrong uplink map" % (arm, tup))
         r.check(any(d.endswith("queued") and l == "false" for d, l, _ in g), "push/%s/only-if-not-queued" % arm, c.loc(), "push_back only when the uplink is not already queued",
                 "push_back without testing `queued`: a lane can be queued twice and overtake itself")
@@ -99,19 +108,21 @@ def queued_flag_discipline(r, ctx):
                     clears.add(i)
         rep = set()
         for c in pop.calls:
-            if c.name == "push_back" and describe_operand(pop, c.args[0]).endswith(".write_queue") and _kind_of(dom_guards(pop, c.block), "pop")[0] == kind:
-                t = describe_operand(pop, c.args[1])
-                r.check(t.startswith("tuple(UplinkKind::%s()" % kind) and "pop_front(self.write_queue)<Some>.0.1" in t, "pop/%s/requeue-same-entry" % kind, c.loc(),
+            if not (c.name == "push_back" and describe_operand(pop, c.args[0]).endswith(".write_queue")):
+                continue
+            t = describe_operand(pop, c.args[1])
+            ck = _kind_of(dom_guards(pop, c.block), "pop")[0]
+            # one re-queue shared by the kinds puts back the popped entry itself
+            popped = t == "tuple(pop_front(self.write_queue)<Some>.0.0, pop_front(self.write_queue)<Some>.0.1)"
+            if ck == kind or (ck is None and popped):
+                r.check((t.startswith("tuple(UplinkKind::%s()" % kind) or popped) and "pop_front(self.write_queue)<Some>.0.1" in t, "pop/%s/requeue-same-entry" % kind, c.loc(),
                         "re-queues the same (kind, id)", "re-queues %s" % t)
                 rep.add(c.block)
+            elif ck is None:
+                r.bad("pop/%s/requeue-same-entry" % kind, c.loc(), "a re-queue that does not depend on the popped kind puts back %s" % t)
         # start: the Some edge of get_mut for this kind
         g = [c for c in gm if _kind_of(dom_guards(pop, c.block), "pop")[0] == kind][0]
-        sws = pop.result_switches(g)
-        some = None
-        for si in sws:
-            ve = pop.variant_edges(si["block"])
-            if ve and "Some" in ve:
-                some = ve["Some"]
+        some = success_edge(pop, g, "Some")
         if some is None:
             r.bad("pop/%s/uplink-found-edge" % kind, g.loc(), "result of get_mut is not matched")
             continue
@@ -133,6 +144,14 @@ def no_data_no_event(r, ctx):
         g = dom_guards(pop, blk)
         kind = _kind_of(g, "pop")[0]
         hd = [(d, l) for d, l, _ in g if d.startswith("has_data(") and MAPFIELD.get(kind, "?") in d]
+        # `had_data.then_some(Event)`: the action is built first and kept only if the answer was yes
+        for c in pop.calls:
+            if c.name == "then_some" and len(c.args) == 2 and c.args[1][0] in ("c", "m") and c.args[1][1][0] == dest[0] and not c.args[1][1][1] and pop.dominates(blk, c.block):
+                cond = describe_operand(pop, c.args[0])
+                src = [x[1] for x in pop.sources(c.args[0]) if x[0] == "call" and x[1].name == "has_data"]
+                pw = [x for x in pop.calls if x.name == "prepare_write" and MAPFIELD.get(kind, "?") in describe_operand(pop, x.args[0])]
+                if cond.startswith("has_data(") and MAPFIELD.get(kind, "?") in cond and src and pw and all(pop.dominates(h.block, p_.block) for h in src for p_ in pw):
+                    hd.append((cond, "true"))
         r.check(any(l == "true" for d, l in hd), "pop/%s/Event-needs-data" % kind, pop.loc(line), "WriteAction::Event only on the has_data() == true edge of the same uplink",
                 "WriteAction::Event is produced without checking has_data(): a stale or synced-only queue entry sends an event with an empty body")
     vs = aggregates(pop, "write_fut::WriteAction", "ValueSynced")
@@ -378,7 +397,8 @@ def requeue_while_data(r, ctx, kinds=("Supply", "Map")):
         be = pop.bool_edges(hds[0])
         rep = {c.block for c in pop.calls if c.name == "push_back" and describe_operand(pop, c.args[0]).endswith(".write_queue")}
         head = [c.block for c in pop.calls if c.name == "pop_front" and describe_operand(pop, c.args[0]).endswith(".write_queue")]
-        ok, wit = pop.must_pass([be[0]], rep, targets=set(head) | set(pop.exits())) if be else (False, None)
+        # from the question itself, leaving out its `no` answer: the answer may be kept (`let more = ..`) and asked about again further down, even by the caller
+        ok, wit = pop.must_pass_edges([hds[0].block], rep, {(be[2], be[1])}, targets=set(head) | set(pop.exits())) if be else (False, None)
         r.check(ok, "pop/%s/data-left=>requeued" % kind, hds[0].loc(), "if data remains after prepare_write the lane is queued again", "data can remain without the lane being re-queued: %s" % wit)
 
 def value_backpressure_rules(r, ctx):
@@ -454,6 +474,9 @@ def frame_lane_name(r, ctx):
     n = 0
     for b, which in ((push, "push"), (ps, "push_special"), (pop, "replace_and_pop")):
         news = [c for c in b.calls if c.name == "new" and "write_fut::WriteTask" in c.defpath]
+        if not news:
+            # each of the three hands a frame to the writer when it is free: how many construction sites they share is a matter of style
+            raise AnchorMissing("Uplinks::%s builds no WriteTask" % which)
         ups = [c for c in b.calls if c.name == "update_lane"]
         for k_, c in enumerate(sorted(news, key=lambda x: x.line)):
             n += 1
@@ -492,8 +515,6 @@ def frame_lane_name(r, ctx):
             if c.name == "update_lane" and "uplink::Uplinks" not in b.defpath:
                 others.append(b.defpath)
     r.check(not others, "frames-built-only-in-Uplinks", where(push), "WriteTask::new and update_lane are used only inside Uplinks (%d frame sites)" % n, "frames are also built in %s" % sorted(set(others)))
-    if n < 7:
-        raise AnchorMissing("expected the 7 frame construction sites of Uplinks (found %d)" % n)
 
 
 def implicit_link_rule(r, ctx, rt, he):
